@@ -64,6 +64,10 @@ def correspondence(ctx, model_ok, tmp):
     reg = b.registry
     dt = DatasetType("bias", {"instrument", "detector"}, "StructuredDataDict", universe=b.dimensions, isCalibration=True)
     reg.registerDatasetType(dt)
+    # a second calibration dataset type with the same dimensions: its validity ranges live in the same per-dimensions table
+    # and must be invisible to everything that is done to the first
+    dt2 = DatasetType("dark", {"instrument", "detector"}, "StructuredDataDict", universe=b.dimensions, isCalibration=True)
+    reg.registerDatasetType(dt2)
     KEYS = [1, 2, 3]
     RUNS = ["r1", "r2", "r3", "r4"]
 
@@ -114,6 +118,18 @@ def correspondence(ctx, model_ok, tmp):
             refs.append((k, ref))
             fbB[k] = len(refs) - 1
         reg.certify(collB, [refs[i][1] for i in fbB.values()], mk(0, MAX))
+        # in two histories of three the collection also holds validity ranges of the other dataset type, for the same data IDs
+        dark_rows = []
+        if rng.random() < 0.67:
+            reg.registerRun(f"rD_{h}")
+            for k in KEYS:
+                if rng.random() < 0.8:
+                    (dref,) = reg.insertDatasets(dt2, [{"instrument": "I", "detector": k}], run=f"rD_{h}")
+                    i_, j_ = sorted(rng.sample(range(len(grid)), 2))
+                    reg.certify(coll, [dref], mk(grid[i_], grid[j_]))
+                    dark_rows.append((k, dref.id, grid[i_], grid[j_]))
+            dark_rows.sort()
+            ctx.count("history-with-second-calibration-type")
         valid = {k: {t: set() for t in P} for k in KEYS}  # oracle
         alive = set(range(len(refs))) - set(fbB.values())
         req.append("cal new")
@@ -224,6 +240,13 @@ def correspondence(ctx, model_ok, tmp):
             req.append("cal rows")
             impl.append(";".join(f"{k}:{d}:{x},{y}" for k, d, x, y in rows) or "-")
             ctx.evaluations += 1
+            got_dark = sorted((a.ref.dataId["detector"], a.ref.id, a.timespan.nsec[0], a.timespan.nsec[1])
+                              for a in reg.queryDatasetAssociations(dt2, collections=[coll]))
+            if got_dark != dark_rows and not bad:
+                viol(f"after {ops_log[-1]} (an operation on dataset type bias): the validity ranges of dataset type dark in the same collection are "
+                     f"{[(k_, x_, y_) for k_, _, x_, y_ in got_dark]}, they were certified as {[(k_, x_, y_) for k_, _, x_, y_ in dark_rows]}",
+                     f"other-type:{ops_log}", {"kind": "history", "ops": ops_log, "failing_step": step})
+                bad = True
             if not bad:
                 for k in KEYS:
                     for t in P:
